@@ -4,9 +4,21 @@
    Definitions only.  The classifier is property C16's model (Model/Classify.v).
 
    The filesystem is an oracle: a [tree] is what stat / readdir / readlink / canonicalize answer.
-   Symbolic links are PRE-RESOLVED: [Link cname t] is a link whose final target is the node [t] and
-   whose canonical (fully resolved) file name is [cname].  Loop-free filesystems unfold to such
-   finite trees; symlink loops, permission errors and races are not exhibited. *)
+   Symbolic links are PRE-RESOLVED: [Link cpath t] is a link whose final target is the node [t] and
+   whose canonical (fully resolved, link-free) location is the component list [cpath] below the
+   model root.  Loop-free filesystems unfold to such finite trees; symlink loops, permission errors
+   and races are not exhibited.
+
+   Two levels:
+   * component level ([process_path_m]): the request is a list of components below a root whose
+     path string is [root_str] (the original model, kept);
+   * STRING level ([process_path_s], work package L): the request is the byte string the user
+     typed, relative to the working directory = the model root; [lookup_str] is the kernel's path
+     resolution (split at '/', empty and "." components, "..", trailing slash, links followed in
+     the middle of a path and at its end when something follows), [walk_base]/[rjoin] are the path
+     strings jwalk builds for what it finds (PathBuf::push; the normalisation parent().join(
+     file_name()) that jwalk applies to a root that is a symlink or not a directory).
+   * stdin at the BYTE level ([stdin_lines]: BufRead::lines), [args_of]. *)
 From S4.Base Require Export Bytes.
 From S4.Model Require Export Classify.
 Open Scope N_scope.
@@ -20,8 +32,9 @@ Definition tmember := (bytes * N * bool)%type.
 Inductive tree :=
 | File (members : list tmember)        (* regular file; [members] = its tar entries if it is read as tar *)
 | Dir (children : list (name * tree))  (* children in readdir order (arbitrary) *)
-| Link (cname : name) (target : tree)  (* symlink, resolved *)
-| Other.                               (* broken symlink (canonicalize fails; jwalk yields an error) *)
+| Link (cpath : path) (target : tree)  (* symlink, resolved; [cpath] = canonical components of the target *)
+| Other                                (* broken symlink (canonicalize fails; jwalk yields an error) *)
+| Special.                             (* fifo, socket, device: exists, neither file nor directory *)
 
 (* ---- byte-lexicographic order of names = Ord for OsString on Unix (what jwalk sorts by) ---- *)
 Fixpoint bytes_ltb (a b : bytes) : bool :=
@@ -48,6 +61,22 @@ Fixpoint sort_tree (t : tree) : tree :=
   | Link c x => Link c (sort_tree x)
   | File ms => File ms
   | Other => Other
+  | Special => Special
+  end.
+
+(* jwalk's default skip_hidden = true (process_path does not change it): an entry read from a
+   directory whose file name, as a str, starts with '.' is dropped — with everything below it.
+   `file_name.to_str().map(|s| s.starts_with('.')).unwrap_or(false)` *)
+Definition dot : N := 46.
+Definition is_hidden (n : name) : bool :=
+  match n with c :: _ => (c =? dot) && utf8_valid n | [] => false end.
+Fixpoint prune (t : tree) : tree :=
+  match t with
+  | Dir cs => Dir (flat_map (fun nc => let '(n, c) := nc in if is_hidden n then [] else [(n, prune c)]) cs)
+  | Link c x => Link c (prune x)
+  | File ms => File ms
+  | Other => Other
+  | Special => Special
   end.
 
 (* follow_links(true): what a link stands for *)
@@ -55,7 +84,7 @@ Fixpoint resolve (t : tree) : tree :=
   match t with Link _ x => resolve x | _ => t end.
 (* file name of the canonical path of an entry called [n] *)
 Fixpoint canon_name (n : name) (t : tree) : name :=
-  match t with Link c x => canon_name c x | _ => n end.
+  match t with Link c x => canon_name (last c []) x | _ => n end.
 
 (* every entry strictly below [t], depth first, a directory before its content, children in
    list order; entry = (components, node) *)
@@ -65,9 +94,10 @@ Fixpoint below (p : path) (t : tree) : list (path * tree) :=
   | Link _ x => below p x
   | File _ => []
   | Other => []
+  | Special => []
   end.
-(* the walk jwalk performs from a root: DFS pre-order, children sorted by name *)
-Definition walk (p : path) (t : tree) : list (path * tree) := below p (sort_tree t).
+(* the walk jwalk performs from a root: DFS pre-order, hidden entries dropped, children sorted by name *)
+Definition walk (p : path) (t : tree) : list (path * tree) := below p (sort_tree (prune t)).
 
 (* "sorted path order": lexicographic on COMPONENTS, each compared as bytes; a proper prefix first *)
 Fixpoint path_ltb (p q : path) : bool :=
@@ -113,7 +143,9 @@ Inductive ppr :=
 | PNotSupported (p : bytes)
 | PNotAFile (p : bytes)
 | PNotExist (p : bytes)
-| PFuel.
+| PFuel
+| PErr (p : bytes)              (* FileErr: canonicalize failed with another error (ENOTDIR) *)
+| PEscape.                      (* the path leaves the modelled tree (absolute, ".." above the root) *)
 
 Definition retar (t : ftype) : option ftype :=
   match t with
@@ -124,11 +156,141 @@ Definition retar (t : ftype) : option ftype :=
   | _ => None
   end.
 
+(* ================================================================ path strings *)
+
+(* the components of a path string: split at every '/' ("a//b/" = a, "", b, "") *)
+Fixpoint split_slash (s : bytes) : list bytes :=
+  match s with
+  | [] => [[]]
+  | c :: r =>
+      if c =? slash then [] :: split_slash r
+      else match split_slash r with
+           | h :: t => (c :: h) :: t
+           | [] => [[c]]
+           end
+  end.
+
+Definition is_dotdot (c : bytes) : bool := beqb c [dot; dot].
+(* components that name the directory they are looked up in: "" (repeated or trailing slash) and "." *)
+Definition is_junk (c : bytes) : bool := is_empty c || beqb c [dot].
+Definition has_slash (c : bytes) : bool := existsb (N.eqb slash) c.
+(* what a directory entry can be called *)
+Definition proper (n : name) : bool := negb (is_junk n) && negb (is_dotdot n) && negb (has_slash n).
+
+(* result of resolving a path string: the node the LAST component names (a symlink there is NOT
+   followed: the lstat view) and the canonical components of where it was found *)
+Inductive look :=
+| Found (cp : path) (t : tree)
+| NoEnt          (* ENOENT *)
+| NotDir         (* ENOTDIR *)
+| Escape.        (* leaves the model *)
+
+(* follow the links at a node, tracking the canonical location *)
+Fixpoint resolve_at (cp : path) (t : tree) : path * tree :=
+  match t with Link c x => resolve_at c x | _ => (cp, t) end.
+
+(* the node at a canonical (link-free) location *)
+Fixpoint node_at (t : tree) (cp : path) {struct cp} : option tree :=
+  match cp with
+  | [] => Some t
+  | n :: r =>
+      match t with
+      | Dir cs =>
+          match find (fun nc => beqb (fst nc) n) cs with
+          | Some nc => node_at (snd nc) r
+          | None => None
+          end
+      | _ => None
+      end
+  end.
+
+(* one component: what the kernel does with component [c] at the node (cp, t) reached so far.
+   The node is first resolved (a link in the middle of a path is followed) and must be a directory.
+   ".." is the parent of the RESOLVED directory, i.e. of its canonical location. *)
+Definition step (root : tree) (cp : path) (t : tree) (c : bytes) : look :=
+  let '(cp', t') := resolve_at cp t in
+  match t' with
+  | Dir cs =>
+      if is_junk c then Found cp' t'
+      else if is_dotdot c then
+        match cp' with
+        | [] => Escape
+        | _ => match node_at root (removelast cp') with
+               | Some (Dir ds) => Found (removelast cp') (Dir ds)
+               | _ => Escape
+               end
+        end
+      else match find (fun nc => beqb (fst nc) c) cs with
+           | Some nc => Found (cp' ++ [c]) (snd nc)
+           | None => NoEnt
+           end
+  | Other => NoEnt
+  | _ => NotDir
+  end.
+
+Fixpoint lookup_comps (root : tree) (cp : path) (t : tree) (cs : list bytes) : look :=
+  match cs with
+  | [] => Found cp t
+  | c :: r =>
+      match step root cp t c with
+      | Found cp' t' => lookup_comps root cp' t' r
+      | e => e
+      end
+  end.
+
+(* a path string relative to the working directory = the model root *)
+Definition lookup_str (root : tree) (s : bytes) : look :=
+  match split_slash s with
+  | [[]] => NoEnt                 (* "" *)
+  | [] :: _ => Escape             (* absolute *)
+  | cs => lookup_comps root [] root cs
+  end.
+
+(* PathBuf::push of a relative component: a separator unless the buffer is empty or ends with one *)
+Definition push (acc n : bytes) : bytes :=
+  match acc with
+  | [] => n
+  | _ => if last acc 0 =? slash then acc ++ n else acc ++ slash :: n
+  end.
+(* parent_path.join(name).join(name)... : the path string of the entry [p] below [base] *)
+Definition rjoin (base : bytes) (p : path) : bytes := fold_left push p base.
+
+(* Path::parent().join(Path::file_name()) of a relative path string whose last component is a normal
+   name: empty and "." components between the last component and what precedes it disappear
+   (Components::as_path trims them from the back), the first component is kept *)
+Fixpoint drop_trailing_junk (l : list bytes) : list bytes :=
+  match l with
+  | [] => []
+  | c :: r => match drop_trailing_junk r with
+              | [] => if is_junk c then [] else [c]
+              | r' => c :: r'
+              end
+  end.
+Definition norm_root (typed : bytes) : bytes :=
+  let cs := split_slash typed in
+  match removelast cs with
+  | [] => last cs []
+  | h :: t => join (h :: drop_trailing_junk t ++ [last cs []])
+  end.
+
+(* the path jwalk reads the children of the root from: the string as typed when lstat says
+   directory; parent().join(file_name()) when the root is a symlink (DirEntry::follow_symlink) *)
+Definition walk_base (typed : bytes) (t : tree) : bytes :=
+  match t with Link _ _ => norm_root typed | _ => typed end.
+
+(* DirEntry::path() of a walk entry: parent_path.join(file_name).  An entry that is itself a
+   symlink was re-created by follow_symlink from that joined path, which takes parent() and
+   file_name() of it again: empty and "." components at the end of the parent disappear
+   ("top//" holding the link l gives "top/l", next to "top//a.log") *)
+Definition entry_str (base : bytes) (e : path * tree) : bytes :=
+  let s := rjoin base (fst e) in
+  match snd e with Link _ _ => norm_root s | _ => s end.
+
 Section Walk.
   Variable sfx_table : list (bytes * sfx_action).
   Variable name_table : list (bytes * name_action).
   Variable junk junk_lead : list N.
-  Variable root_str : bytes.     (* the path string the user typed for the root *)
+  Variable root_str : bytes.     (* the path string the user typed for the root (component level) *)
 
   Definition cls (uat : bool) (n : name) : result :=
     classify_top sfx_table name_table junk junk_lead uat n.
@@ -153,35 +315,42 @@ Section Walk.
 
   Definition last_name (p : path) : name := last p [].
 
-  (* a file named on the command line: classified from the CANONICAL name, unparseable_are_text =
-     true, always attempted *)
-  Definition explicit_result (uat : bool) (e : path * tree) : list ppr :=
-    let '(p, t) := e in
+  (* a file named on the command line, reported under the string [ps]: classified from the
+     CANONICAL name [cname], unparseable_are_text = true, always attempted *)
+  Definition explicit_gen (ps : bytes) (cname : name) (uat : bool) (t : tree) : list ppr :=
     match resolve t with
     | File ms =>
-        match cls true (canon_name (last_name p) t) with
-        | RFile ft => [PValid (pstr p) ft]
-        | RArchiveTar _ => tar_results uat (pstr p) ms
+        match cls true cname with
+        | RFile ft => [PValid ps ft]
+        | RArchiveTar _ => tar_results uat ps ms
         | ROutOfFuel => [PFuel]
         end
-    | Other => [PNotExist (pstr p)]
+    | Other => [PNotExist ps]
+    | Special => [PNotAFile ps]     (* jwalk yields the root entry itself: not a file, not a dir *)
     | _ => []
     end.
 
-  (* an entry met while walking: classified from the ENTRY's name, unparseable_are_text = false;
-     known non-log types are reported NotSupported (dropped); directories are skipped *)
-  Definition walked_result (uat : bool) (e : path * tree) : list ppr :=
-    let '(p, t) := e in
+  (* an entry met while walking, reported under the string [ps]: classified from the ENTRY's name
+     [ename], unparseable_are_text = false; known non-log types are reported NotSupported
+     (dropped); directories are skipped; fifos/sockets are reported NotAFile *)
+  Definition walked_gen (ps : bytes) (ename : name) (uat : bool) (t : tree) : list ppr :=
     match resolve t with
     | File ms =>
-        match cls false (last_name p) with
-        | RFile Unparsable => [PNotSupported (pstr p)]
-        | RFile ft => [PValid (pstr p) ft]
-        | RArchiveTar _ => tar_results uat (pstr p) ms
+        match cls false ename with
+        | RFile Unparsable => [PNotSupported ps]
+        | RFile ft => [PValid ps ft]
+        | RArchiveTar _ => tar_results uat ps ms
         | ROutOfFuel => [PFuel]
         end
+    | Special => [PNotAFile ps]
     | _ => []       (* directories are skipped; jwalk reports a broken link as an error: skipped *)
     end.
+
+  Definition explicit_result (uat : bool) (e : path * tree) : list ppr :=
+    let '(p, t) := e in explicit_gen (pstr p) (canon_name (last_name p) t) uat t.
+
+  Definition walked_result (uat : bool) (e : path * tree) : list ppr :=
+    let '(p, t) := e in walked_gen (pstr p) (last_name p) uat t.
 
   (* process_path(path, unparseable_are_text) for the path made of components [req] below [root] *)
   Definition process_path_m (root : tree) (uat : bool) (req : path) : list ppr :=
@@ -197,6 +366,33 @@ Section Walk.
   (* main: processed_paths = concatenation over the path list; PathId = position *)
   Definition run_m (root : tree) (paths : list path) : list ppr :=
     flat_map (process_path_m root true) paths.
+
+  (* ---------------------------------------------------------------- string level *)
+
+  (* an entry [p] of the walk below the root typed as [typed], whose lstat node is [t0] *)
+  Definition walked_s (typed : bytes) (t0 : tree) (uat : bool) (e : path * tree) : list ppr :=
+    walked_gen (entry_str (walk_base typed t0) e) (last_name (fst e)) uat (snd e).
+
+  (* process_path(typed, unparseable_are_text): canonicalize (ENOENT / other error), is_file =>
+     classify the canonical name; otherwise jwalk from the string as typed *)
+  Definition process_path_s (root : tree) (uat : bool) (typed : bytes) : list ppr :=
+    match lookup_str root typed with
+    | NoEnt => [PNotExist typed]
+    | NotDir => [PErr typed]
+    | Escape => [PEscape]
+    | Found cp t =>
+        let '(cp', t') := resolve_at cp t in
+        match t' with
+        | Dir _ => flat_map (walked_s typed t uat) (walk [] t)
+        | File _ => explicit_gen typed (last cp' []) uat t'   (* the canonical path's file name *)
+        | Other => [PNotExist typed]
+        | Special => [PNotAFile (norm_root typed)]
+        | Link _ _ => [PEscape]            (* not reachable: resolve_at never ends at a link *)
+        end
+    end.
+
+  Definition run_s (root : tree) (paths : list bytes) : list ppr :=
+    flat_map (process_path_s root true) paths.
 End Walk.
 
 (* cli_process_args: the first "-" is replaced by the lines of stdin, later "-" are ignored *)
@@ -213,6 +409,60 @@ Section MainPaths.
     end.
   Definition main_paths (args stdin : list A) : list A := main_paths_aux false args stdin.
 End MainPaths.
+
+(* ================================================================ stdin, byte level *)
+(* std::io::stdin().lock().lines(): read_line reads through the next '\n' (or to the end of the
+   stream); the chunk must be valid UTF-8; a trailing "\n" is removed and then ONE trailing "\r";
+   nothing is trimmed otherwise; an empty line is an empty String; a last line without "\n" is a
+   line (when not empty).  cli_process_args pushes every Ok line and BREAKS at the first Err
+   (invalid UTF-8): that chunk and everything after it are dropped. *)
+Definition nl : N := 10.
+Definition cr : N := 13.
+
+(* the chunks of read_line: (content before the terminator, was it terminated by '\n') *)
+Fixpoint raw_lines (s : bytes) : list (bytes * bool) :=
+  match s with
+  | [] => []
+  | c :: r =>
+      if c =? nl then ([], true) :: raw_lines r
+      else match raw_lines r with
+           | (l, tm) :: rest => (c :: l, tm) :: rest
+           | [] => [([c], false)]
+           end
+  end.
+
+Definition chunk_of (lt : bytes * bool) : bytes := fst lt ++ (if snd lt then [nl] else []).
+(* Lines::next: pop "\n", then pop "\r" — only when the chunk ended with "\n" *)
+Definition strip_line (lt : bytes * bool) : bytes :=
+  let '(l, tm) := lt in
+  if tm then (match rev l with c :: r => if c =? cr then rev r else l | [] => l end) else l.
+
+Fixpoint until_invalid (ls : list (bytes * bool)) : list bytes :=
+  match ls with
+  | [] => []
+  | lt :: r => if utf8_valid (chunk_of lt) then strip_line lt :: until_invalid r else []
+  end.
+
+Definition stdin_lines (s : bytes) : list bytes := until_invalid (raw_lines s).
+
+Definition dash : bytes := [45].
+Definition is_dash_b (a : bytes) : bool := beqb a dash.
+(* the path list main() iterates over *)
+Definition args_of (argv : list bytes) (stdin : bytes) : list bytes :=
+  main_paths bytes is_dash_b argv (stdin_lines stdin).
+
+(* the byte stream that carries a path list: the paths joined by "\n", with or without a final "\n" *)
+Fixpoint join_lines (paths : list bytes) (final : bool) : bytes :=
+  match paths with
+  | [] => []
+  | p :: r => match r with
+              | [] => p ++ (if final then [nl] else [])
+              | _ => p ++ nl :: join_lines r final
+              end
+  end.
+(* a path that survives the trip through stdin: valid UTF-8, no "\n", not ending in "\r" *)
+Definition line_safe (p : bytes) : bool :=
+  utf8_valid p && negb (existsb (N.eqb nl) p) && negb (last p 0 =? cr).
 
 (* what the run depends on: the FileValid entries in order (others only produce stderr lines) *)
 Definition is_valid (r : ppr) : bool := match r with PValid _ _ => true | _ => false end.
